@@ -56,6 +56,10 @@ const TOL: f64 = 1e-9;
 /// Wire amplitudes below `DUST` x (largest wire amplitude of the event) are rounding dust.
 const DUST: f64 = 1e-9;
 
+/// `wire_to_pad_column`, kept inside the array bounds of this harness.
+fn col_of(w: usize) -> usize {
+    verif_wire_to_pad_column(w) % TPC_PAD_COLUMNS
+}
 fn empty_wires() -> Wires {
     std::array::from_fn(|_| None)
 }
@@ -167,7 +171,7 @@ fn near_ties(inputs: &Wires, scale: f64) -> Vec<(usize, usize, usize)> {
     let mut out = Vec::new();
     let tmax = inputs.iter().flatten().map(|v| v.len()).max().unwrap_or(0);
     for c in 0..TPC_PAD_COLUMNS {
-        let wires: Vec<usize> = verif_pad_column_to_wires(c).collect();
+        let wires: Vec<usize> = verif_pad_column_to_wires(c).filter(|w| *w < TPC_ANODE_WIRES).collect();
         for t in 0..tmax {
             let hits: Vec<(usize, f64)> = wires.iter().filter_map(|&w| inputs[w].as_ref().and_then(|v| v.get(t)).copied().filter(|v| *v > 0.0).map(|v| (w, v))).collect();
             for i in 0..hits.len() {
@@ -203,7 +207,7 @@ fn impl_answer(ws: &Wires, ps: &Pads) -> (String, Option<String>, usize) {
             let mut cols = [false; TPC_PAD_COLUMNS];
             for (w, sig) in ws.iter().enumerate() {
                 if sig.is_some() {
-                    cols[verif_wire_to_pad_column(w)] = true;
+                    cols[col_of(w)] = true;
                 }
             }
             let mut seen = std::collections::HashSet::new();
@@ -215,7 +219,7 @@ fn impl_answer(ws: &Wires, ps: &Pads) -> (String, Option<String>, usize) {
                     why = Some(format!("avalanche phi {} is no wire's phi", a.phi.value));
                     continue;
                 };
-                if !cols[verif_wire_to_pad_column(w)] {
+                if !cols[col_of(w)] {
                     why = Some(format!("avalanche on wire {w}, whose pad column faces no occupied wire"));
                 }
                 if tb < 0 || tb as usize >= longest {
@@ -379,7 +383,7 @@ fn hit_event(rng: &mut Rng, wires: &[usize], noise: f64, differing_lengths: bool
             let k = rng.below((base_len - 15) as u64) as usize;
             let a = 10f64.powf(1.0 + 3.0 * rng.f64_unit());
             pulse_into(&mut sig, k, a, &t.wire_resp);
-            let col = verif_wire_to_pad_column(w);
+            let col = col_of(w);
             let row = rng.below(TPC_PAD_ROWS as u64) as usize;
             let b = 10f64.powf(2.0 + 2.0 * rng.f64_unit());
             let shape: &[f64] = if rng.bool() { &[0.45, 1.0, 0.35] } else { &[0.1, 0.5, 1.0, 0.6, 0.15] };
@@ -537,7 +541,7 @@ pub fn generate(s: &mut Session, thorough: bool) -> bool {
         // pads in a column that faces no occupied wire
         {
             let (ws, mut ps) = hit_event(&mut rng, &block(40, 3), 0.5, false, false);
-            let other = (verif_wire_to_pad_column(40) + 5) % TPC_PAD_COLUMNS;
+            let other = (col_of(40) + 5) % TPC_PAD_COLUMNS;
             pad_cloud(&mut rng, &mut ps, other, 200, 20, 800.0, 60, 0.0, &[0.4, 1.0, 0.3], true);
             add_event(s, "degenerate", &ws, &ps, &mut total);
         }
@@ -550,8 +554,8 @@ pub fn generate(s: &mut Session, thorough: bool) -> bool {
             ws[7] = Some(vec![-1.0, -2.0]);
             ws[100] = Some(vec![]);
             ws[101] = Some(vec![]);
-            ps[verif_wire_to_pad_column(6)][10] = Some(vec![]);
-            ps[verif_wire_to_pad_column(6)][11] = Some(vec![5.0, 4.0]);
+            ps[col_of(6)][10] = Some(vec![]);
+            ps[col_of(6)][11] = Some(vec![5.0, 4.0]);
             add_event(s, "degenerate", &ws, &ps, &mut total);
         }
         // plateaus and equal amplitudes: pad triplets with first == middle, middle == last, two
@@ -561,7 +565,7 @@ pub fn generate(s: &mut Session, thorough: bool) -> bool {
             let mut ws = empty_wires();
             let mut ps = empty_pads();
             let len = 80;
-            let first = verif_pad_column_to_wires(3).start;
+            let first = verif_pad_column_to_wires(3).start % (TPC_ANODE_WIRES - 8);
             let amps: [f64; 3] = if variant % 2 == 0 { [500.0, 500.0, 250.0] } else { [400.0, 300.0, 300.0] };
             for (j, a) in amps.iter().enumerate() {
                 let mut v = vec![0.0; len];
@@ -582,7 +586,7 @@ pub fn generate(s: &mut Session, thorough: bool) -> bool {
             let mut ws = empty_wires();
             let mut ps = empty_pads();
             let len = 64;
-            let w = verif_pad_column_to_wires(31).start + 7;
+            let w = (verif_pad_column_to_wires(31).start + 7) % TPC_ANODE_WIRES;
             let mut v = vec![0.0; len];
             pulse_into(&mut v, 2, 300.0, &t.wire_resp);
             pulse_into(&mut v, len - 6, 800.0, &t.wire_resp);
@@ -598,7 +602,7 @@ pub fn generate(s: &mut Session, thorough: bool) -> bool {
             if let Some(v) = ws[62].as_mut() {
                 v[10] = bad;
             }
-            if let Some(v) = ps[verif_wire_to_pad_column(62)].iter_mut().flatten().next() {
+            if let Some(v) = ps[col_of(62)].iter_mut().flatten().next() {
                 v[12] = bad;
             }
             add_event(s, "non-finite", &ws, &ps, &mut total);
